@@ -200,6 +200,10 @@ func (s *Syncer[H]) tailHeight(ctx context.Context, oldTail, head H) (uint64, er
 // estimateTailHeight estimates the tail header based on the current head.
 // It respects the trusting period, ensuring Syncer never initializes off an expired header.
 func (s *Syncer[H]) estimateTailHeight(head H) uint64 {
+	if s.Params.blockTime <= 0 {
+		// no block time to estimate with (the default): keep all headers starting from genesis
+		return 1
+	}
 	headersToRetain := uint64(s.Params.trustingPeriod / s.Params.blockTime) //nolint:gosec
 	if headersToRetain >= head.Height() {
 		// means chain is very young so we can keep all headers starting from genesis
@@ -222,10 +226,18 @@ func (s *Syncer[H]) findTailHeight(ctx context.Context, oldTail, head H) (uint64
 	case tailTimeDiff <= 0:
 		// current tail is relevant as is
 		return oldTail.Height(), nil
+	case s.Params.blockTime <= 0:
+		// no block time to estimate with (the default): the tail stays where it is
+		return oldTail.Height(), nil
 	case tailTimeDiff >= window:
 		// current and expected tails are far from each other
 		// estimate with head for higher accuracy
 		headersToStore := uint64(window / s.Params.blockTime) //nolint:gosec
+		if headersToStore >= head.Height() {
+			// the chain holds fewer headers than the window would (e.g. it was halted for long):
+			// the estimate would fall below genesis, so there is nothing to prune by it
+			return oldTail.Height(), nil
+		}
 		estimatedTailHeight = head.Height() - headersToStore
 	case tailTimeDiff < window:
 		// tails are close
